@@ -23,6 +23,15 @@ def frame(src, dst, sport, dport, seq, ack, flags, payload=b"", opts=b"", ipid=1
     return bytes([2, 0, 0, 0, 0, 2, 2, 0, 0, 0, 0, 1, 8, 0]) + ip + tcp
 
 
+def frame6(src, dst, sport, dport, seq, ack, flags, payload=b"", opts=b"", hlim=64, flow=0):
+    """Ethernet / IPv6 / TCP frame; src and dst are 16-byte sequences"""
+    doff = 5 + len(opts) // 4
+    tcp = bytes([sport >> 8, sport & 255, dport >> 8, dport & 255]) + (seq % M32).to_bytes(4, "big") + (ack % M32).to_bytes(4, "big") + bytes([doff << 4, flags, 0xff, 0xff, 0, 0, 0, 0]) + opts + payload
+    ip = bytes([0x60 | ((flow >> 16) & 15), (flow >> 8) & 255, flow & 255]) + bytes([0])[:0] + bytes([len(tcp) >> 8, len(tcp) & 255, 6, hlim]) + bytes(src) + bytes(dst)
+    ip = bytes([0x60, (flow >> 16) & 15, (flow >> 8) & 255, flow & 255]) + bytes([len(tcp) >> 8, len(tcp) & 255, 6, hlim]) + bytes(src) + bytes(dst)
+    return bytes([2, 0, 0, 0, 0, 2, 2, 0, 0, 0, 0, 1, 0x86, 0xdd]) + ip + tcp
+
+
 def digest(x):
     return hashlib.sha1(json.dumps(x, sort_keys=True).encode()).hexdigest()[:16]
 
